@@ -107,6 +107,13 @@ class Runner:
                         for d in deps:
                             if not only_two_deps:
                                 cs.append((kinds, reads, place, m, d, None, 0))
+                                if d and d[0] == 'var':
+                                    # the same dependency declared through each NON-home member of its class, with the components
+                                    # listed in either order (the member may sit in an earlier component than the defining equation)
+                                    for (j, c) in twins:
+                                        if j == d[1]:
+                                            for pc in (False, True):
+                                                cs.append((kinds, reads, place, m, ('vartwin', j, c), None, {'perm_comp': pc}))
                         # two declared dependencies living in different components, also with names shared across components
                         if len(m) == 1 and m[0][0] == 'home' and n == 3:
                             i = m[0][1]
@@ -142,6 +149,9 @@ class Runner:
                         for j in range(n):
                             if j != i and not value_depends_on(kinds, reads, j, i) and D.state_dependent(kinds, reads, j):
                                 cs.append((kinds, reads, place, (('home', i),), ('var', j), None, 0))
+                                for (jj, c) in [(jj, c) for (jj, c) in D.Layout(kinds, reads, place).needed_twins() if jj == j]:
+                                    for pc in (False, True):
+                                        cs.append((kinds, reads, place, (('home', i),), ('vartwin', j, c), None, {'perm_comp': pc}))
         self._sdep = cs
         return cs
 
@@ -192,7 +202,9 @@ def families(opts):
             e = dict(e)
             e['deps'] = []
             if d and x == m[0]:
-                if d[0] == 'var':
+                if d[0] == 'vartwin':
+                    e['deps'].append(L.ref(d[1], d[2]))
+                elif d[0] == 'var':
                     e['deps'].append(L.ref(d[1]))
                 elif d[0] == 'vars':
                     e['deps'] += [L.ref(d[1]), L.ref(d[2])]
@@ -225,7 +237,7 @@ def families(opts):
             added = er[0]['deps_added'][0] if er[0]['deps_added'] else None
             if d[0] in ('self', 'foreign') and added:
                 rep('addDependency-accepts-%s' % d[0])
-            if d[0] in ('var', 'vars') and not all(er[0]['deps_added']):
+            if d[0] in ('var', 'vars', 'vartwin') and not all(er[0]['deps_added']):
                 rep('addDependency-refuses-legal-dependency')
         if only_state_marked and r.prop != 'C17':
             ctx.outcome('only-state-marked(not judged: the VOI is left dangling)')
@@ -301,7 +313,7 @@ def families(opts):
             for e in res.get(arr, []):
                 idx[L.class_of(e['comp'], e['var'])] = (arr, e['index'])
         ext_index = {idx[i][1]: i for i in want_ext if i in idx}
-        dep_classes = [d[1]] if d and d[0] == 'var' else [d[1], d[2]] if d and d[0] == 'vars' else []
+        dep_classes = [d[1]] if d and d[0] in ('var', 'vartwin') else [d[1], d[2]] if d and d[0] == 'vars' else []
         # second evaluation point (what an integrator does between outputs): the states move, voi stays, ONLY computeVariables
         # runs. An external variable with a declared dependency that depends on a state answers differently there (its value is
         # a function of what it depends on); every other value must match the equations at the new states.
@@ -450,7 +462,7 @@ def families(opts):
     def show_sdep(ci):
         case = r.sdep_cases()[ci]
         dsc = describe(case)
-        dsc['document'] = D.Layout(case[0], case[1], case[2]).render()
+        dsc['document'] = D.Layout(case[0], case[1], case[2], **(case[6] if isinstance(case[6], dict) else {'rename': case[6]})).render()
         return dsc
     return [Family('ext', lambda: len(r.cases()), run_ext, show), Family('sdep', lambda: len(r.sdep_cases()), run_sdep, show_sdep)]
 
